@@ -21,7 +21,9 @@ PROP = {
                   "for them the oracle accepts 'reported completely' or 'not reported' (hour mode, then all "
                   "totals are exact again) resp. the interval [certain, all] (day mode). The same holds for what was "
                   "counted before POST stats_config {interval: 0} (documented only as 'statistics is disabled'): "
-                  "it may be reported or not, per hour. Updates issued between a "
+                  "it may be reported or not, per hour, but the first hourly read that shows such an hour decides: "
+                  "counts seen kept must stay until their hour leaves the window, counts seen dropped must not come "
+                  "back. Updates issued between a "
                   "clock step and the next run of the flush worker (<= 1 s in production) are not generated. "
                   "The concurrent part judges only schedules that occur and is not built with -race in the "
                   "registered tiers (4-5x slower; one manual -race run of the whole quick tier was clean). Trusts bbolt, encoding/json, net/http/httptest.",
